@@ -716,6 +716,24 @@ impl Ctx {
     }
 }
 
+/// A short call history evaluated (and replayed) as one case: the steps run back to back on one thread.
+pub struct Hist<C: Case>(pub Vec<C>);
+impl<C: Case> Case for Hist<C> {
+    fn to_json(&self) -> Value {
+        json!({"kind": "history", "steps": self.0.iter().map(|c| c.to_json()).collect::<Vec<_>>()})
+    }
+}
+impl Stats {
+    pub fn eval_hist<C: Case>(&mut self, h: u64, steps: Vec<C>, check: impl Fn(&mut Stats, &C)) {
+        self.bumpn("history steps", steps.len() as u64);
+        self.eval_h(h, &Hist(steps), |st, hist| {
+            for c in &hist.0 {
+                check(st, c);
+            }
+        });
+    }
+}
+
 /// History monitor, cold start: every case is evaluated as the *first* library call of a freshly spawned thread
 /// (thread-local caches / memos are in their initial state there). Pure functions must not care.
 pub fn cold_threads<C, F>(st: &mut Stats, stratum: &str, cases: Vec<C>, check: F)
